@@ -7,8 +7,8 @@ class LearnableThermometerThresholding(nn.Module):
     def __init__(self, init_thresholds, slope=10.0):
         super().__init__()
         self.num_thresholds = len(init_thresholds)
-        if not slope > 0:
-            raise ValueError("slope must be positive")
+        if not 0 < slope < torch.finfo(torch.float32).max:
+            raise ValueError("slope must be positive and finite")
         self.slope = slope
         self._frozen = False  # switch to control hard/soft behavior
 
